@@ -219,6 +219,8 @@ def run_check(prop: str, tier: str, seed: int, replay: str | None = None) -> int
     nshards = int(os.environ.get("VERIF_SHARDS", getattr(mod, "SHARDS", {}).get(tier, 16)))
     nshards = max(1, min(nshards, os.cpu_count() or 1))
     budget = getattr(mod, "BUDGET_S", {"quick": 240, "thorough": 3000})[tier]
+    if os.environ.get("VERIF_BUDGET"):  # screening runs: a shorter (or longer) exploration budget per check
+        budget = float(os.environ["VERIF_BUDGET"])
     tmp = tempfile.mkdtemp(prefix=f"verif_{prop}_")
     env = dict(os.environ)
     env["PYTHONPATH"] = VERIF + os.pathsep + env.get("PYTHONPATH", "")
